@@ -299,6 +299,52 @@ def build_if_derived(rng, env):
     return pr
 
 
+def build_if_accumulator(rng, env):
+    """crafted family: a fluent written from an interpreted function (`reading := f(x)`) feeds an ACCUMULATOR whose update reads both itself
+    and the reading (`total := total + reading`, or a difference / a product by 2), the accumulating action can fire only once, and a
+    later precondition or the goal needs the real accumulated value"""
+    tm, em = env.type_manager, env.expression_manager
+    pr = up.model.Problem("ifaccumulator", env)
+    mk = lambda n, t, v: (lambda f: (pr.add_fluent(f, default_initial_value=v), f)[1])(up.model.Fluent(n, t, environment=env))   # noqa: E731
+    x = mk("x", tm.IntType(0, 3), rng.randint(0, 3))
+    reading = mk("reading", tm.IntType(0, 9), 0)
+    t0 = rng.randint(0, 3)
+    total = mk("total", tm.IntType(-20, 40), t0)
+    added = mk("added", tm.BoolType(), False)
+    done = mk("done", tm.BoolType(), False)
+    table = [rng.randint(1, 9) for _ in range(4)]
+    f = InterpretedFunction("f", tm.IntType(0, 9), OrderedDictI({"a": tm.IntType(0, 3)}), lambda a, table=table: table[a], env)
+    x0 = pr.initial_value(x()).constant_value()
+    read = up.model.InstantaneousAction("read", _env=env)
+    read.add_effect(reading, f(x))
+    add = up.model.InstantaneousAction("add", _env=env)
+    add.add_precondition(em.Not(added))
+    add.add_effect(added, True)
+    shape = rng.randint(0, 2)
+    if shape == 0:
+        add.add_effect(total, em.Plus(total, reading))
+        want = t0 + table[x0]
+    elif shape == 1:
+        add.add_effect(total, em.Minus(total, reading))
+        want = t0 - table[x0]
+    else:
+        add.add_effect(total, em.Plus(em.Times(2, reading), total))
+        want = t0 + 2 * table[x0]
+    finish = up.model.InstantaneousAction("finish", _env=env)
+    finish.add_precondition(added)
+    if rng.random() < 0.5:
+        finish.add_precondition(em.Equals(total, want))
+    else:
+        pr.add_goal(em.Equals(total, want))
+    finish.add_effect(done, True)
+    acts = [read, add, finish]
+    rng.shuffle(acts)
+    for a in acts:
+        pr.add_action(a)
+    pr.add_goal(done)
+    return pr
+
+
 def OrderedDictI(d):
     from collections import OrderedDict
     return OrderedDict(d)
@@ -366,14 +412,14 @@ def _if_cond_tag(pr):
 
 def scenario(seed, failures, stats, pair=False):
     rng = random.Random(seed)
-    label = {"seed": seed, "family": ("derived" if pair == "derived" else "pair") if pair else "generated"}
+    label = {"seed": seed, "family": (pair if isinstance(pair, str) else "pair") if pair else "generated"}
 
     def bad(what, observed=None):
         if what not in {f["what"] for f in failures}:
             failures.append({"what": what, "concrete": label, "observed": observed})
     # ---------------- interpreted functions planner
     env = fresh_env()
-    pr = (build_if_derived(rng, env) if pair == "derived" else build_if_pair(rng, env)) if pair else build_if(rng, env)
+    pr = ({"derived": build_if_derived, "accumulator": build_if_accumulator}.get(pair, build_if_pair)(rng, env)) if pair else build_if(rng, env)
     try:
         seen, rep = ref_reachable(pr)
     except seqsem.Ambiguous:
@@ -446,10 +492,11 @@ def bounded(tier, seed):
             scenario(seed * 100003 + i, failures, stats)
             scenario(seed * 100003 + 70000 + i, failures, stats, pair=True)
             scenario(seed * 100003 + 90000 + i, failures, stats, pair="derived")
+            scenario(seed * 100003 + 110000 + i, failures, stats, pair="accumulator")
             if len(failures) >= 8:
                 break
     return {"evaluations": stats["n"], "distinct_nontrivial": len(stats["distinct"]), "failures": failures[:8],
-            "rule": f"{n} seeds x (one generated, one 'pair' and one 'derived-copies' interpreted-functions problem + one oversubscription problem), each solved through the real meta-engine around the "
+            "rule": f"{n} seeds x (one generated, one 'pair', one 'derived-copies' and one 'accumulator' interpreted-functions problem + one oversubscription problem), each solved through the real meta-engine around the "
                     f"harness's exact BFS planner and compared with an exhaustive reference search of the original problem",
             "samples": [{"outcomes": sorted(map(str, stats["distinct"]))[:12]}], "bound": f"{n} seeds"}
 
@@ -459,7 +506,7 @@ def replay_file(data):
     failures, stats = [], {"n": 0, "distinct": set()}
     with warnings.catch_warnings():
         warnings.simplefilter("ignore")
-        scenario(c.get("seed", 0), failures, stats, pair={"pair": True, "derived": "derived"}.get(c.get("family"), False))
+        scenario(c.get("seed", 0), failures, stats, pair={"pair": True, "derived": "derived", "accumulator": "accumulator"}.get(c.get("family"), False))
     return {"reproduced": bool(failures), "concrete": c, "observed": [f["what"] for f in failures][:4]}
 
 
